@@ -52,4 +52,29 @@ def encodeAsWav (turbo : Bool) (base : Nat) (code : Bytes) (name : Bytes) : Opti
   let env := if turbo then wavTurboEnv else wavEnv
   if base < 65536 ∧ code.length < 65536 then some (makeWavFile (pulseTrain env turbo base code name) env.sampleRate) else none
 
+/-! ### the name in the tape header (`add_emitted_bk_wav`) -/
+
+def lowerChars (cs : List Char) : List Char := cs.map Char.toLower
+def dotWav : List Char := ['.', 'w', 'a', 'v']
+def dotMac : List Char := ['.', 'm', 'a', 'c']
+
+/-- `s.lower().endswith(suffix)` on characters -/
+def endsWithCI (cs suffix : List Char) : Bool := (lowerChars cs).reverse.take suffix.length == suffix.reverse
+
+/-- the output path when the directive has no operand: the source file name, `.mac` replaced by `.wav` -/
+def defaultWavPath (source : List Char) : List Char :=
+  (if endsWithCI source dotMac then source.take (source.length - 4) else source) ++ dotWav
+
+/-- `write_path.split("/")[-1]` -/
+def baseName (path : List Char) : List Char := (path.reverse.takeWhile (· ≠ '/')).reverse
+
+/-- the tape name: an explicit one is taken as written; otherwise the file name of the output
+path without a final `.wav` (any letter case) -/
+def tapeName (explicit : Option (List Char)) (writePath : List Char) : List Char :=
+  match explicit with
+  | some n => n
+  | none =>
+    let b := baseName writePath
+    if endsWithCI b dotWav then b.take (b.length - 4) else b
+
 end Pdpy11.Model.Container
